@@ -77,7 +77,7 @@ def run(ctx: Ctx) -> int:
             "k_obligations": kcounts,
             "rule": "one obligation per harness / per table row; non-trivial = confirmed over all paths with a reachable end (twin)",
             "samples": [{"harness": r.name, "verdict": r.verdict, "detail": r.detail[:120], "seconds": round(r.seconds, 1)} for r in list(kres)[:6] + tres[:4]],
-            "functions_encoded": __import__("vlib.tealerio", fromlist=["source_sha"]).source_sha([SB.Stack.pop_n_values, SB.construct_stack_ast.__wrapped__, I.Dig, I.Cover, I.Uncover, I.Bury, I.Popn, I.Dupn, I.FrameBury]),
+            "functions_encoded": __import__("vlib.tealerio", fromlist=["source_sha"]).source_sha([lambda: SB.Stack.pop_n_values, lambda: SB.construct_stack_ast.__wrapped__, lambda: I.Dig, lambda: I.Cover, lambda: I.Uncover, lambda: I.Bury, lambda: I.Popn, lambda: I.Dupn, lambda: I.FrameBury]),
             "bounds": {"stack_depth": "0..4", "pops": "0..6", "immediates": "0..255", "crosshair_timeout_s": 120 if ctx.quick else 600},
             "avm_table_vs_pyteal": {k: (v if not isinstance(v, list) else v[:10]) for k, v in cross.items()},
             "exhaustive": False,
